@@ -258,6 +258,7 @@ class GraphStream(TripleStream):
 
         """
         graph_start = jelly.RdfGraphStart()
+        self.encoder.start_statement()
         [*graph_rows] = self.encoder.encode_graph(graph_id, graph_start)
         start_row = jelly.RdfStreamRow(graph_start=graph_start)
         graph_rows.append(start_row)
